@@ -25,7 +25,7 @@ RULE = ("one case = one model (positive/complex share BinaryRBM, mixed uses Puri
         "parameter scales up to 30 incl. saturating conditionals) on which the three monitors run over every start "
         "state, k in {0,1,2,3,5}, overwrite on/off, random start. Non-trivial: every bias and weight non-zero; "
         "distinct by sha256 of parameters.")
-REQUIRED = ["parameter_changes_on_sampled_state", "continuation_checks", "held_results_rechecked", "conditional_entries_compared", "kernel_rows_checked", "tapped_bernoulli_draws", "automaton_steps_accepted",
+REQUIRED = ["parameter_changes_on_sampled_state", "continuation_checks", "held_results_rechecked", "conditional_entries_compared", "kernel_rows_checked",
             "overwrite_true_checks", "overwrite_false_checks", "empirical_cells_tested", "protected_write_ops_inspected"]
 ANCHOR_FILES = ["qucumber/rbm/binary_rbm.py", "qucumber/rbm/purification_rbm.py"]
 REACH = [
@@ -34,6 +34,16 @@ REACH = [
     ("qucumber/nn_states/neural_state.py", r"dist = torch\.distributions\.Bernoulli\(probs=0\.5\)", "sample random start"),
     ("qucumber/nn_states/neural_state.py", r"return self\.rbm_am\.gibbs_steps\(k, initial_state, overwrite=overwrite\)", "sample"),
 ]
+
+
+def CONCLUSIVE(counters):
+    """the k-step law must have been decided by the draw-level automaton (monitor 2) or, when the sampler does not draw
+    through aten::bernoulli and the tap is blind, by the empirical-law monitor (monitor 3, then run on every case)"""
+    if counters.get("automaton_steps_accepted", 0) == 0 and counters.get("empirical_cells_tested", 0) == 0:
+        return ["k-step-law-undecided: neither the draw automaton nor the empirical-law monitor observed anything"]
+    return []
+
+
 ASSUMPTIONS = ["aten::bernoulli(p) draws independent Bernoulli(p) variates from the seeded torch generator",
                "statistical monitor: Hoeffding bound, union over cells and cases, total false-alarm probability <= 1e-9"]
 MIN_PER_WORKER = 2
@@ -203,26 +213,36 @@ def phase(case, ctx, rng, st, am, label, held, last):
             if mixed:
                 need["a"] = ra
             got = {}
-            for _ in range(len(need)):
+            while len(got) < len(need):
                 if pos >= len(bern):
                     ctx.violation("chain-too-few-draws", f"{what}: step {step}: expected a latent-layer draw, none recorded", tags=tags)
                     return None
                 _, p, r = bern[pos]
                 pos += 1
                 p = p.numpy()
+                rr = r.numpy()
                 hit = None
                 for nm, ref in need.items():
                     if nm not in got and p.shape == ref.shape and np.all(np.abs(p - ref) <= 1e-12):
                         hit = nm
+                        got[nm] = rr
                         break
+                if hit is None and mixed and not got and p.ndim == 2 and p.shape[-1] == rh.shape[-1] + ra.shape[-1]:
+                    # hidden and auxiliary units drawn in ONE call (a fused latent layer), in either order
+                    for first, second, n1 in (("h", "a", rh.shape[-1]), ("a", "h", ra.shape[-1])):
+                        cat = np.concatenate([need[first], need[second]], axis=-1)
+                        if np.all(np.abs(p - cat) <= 1e-12):
+                            got[first], got[second] = rr[..., :n1], rr[..., n1:]
+                            hit = "fused"
+                            ctx.count("fused_latent_draws_accepted")
+                            break
                 if hit is None:
                     ctx.violation("latent-draw-not-from-conditional",
                                   f"{what}: step {step}: a draw with probabilities {np.round(p.reshape(-1)[:6], 6).tolist()} (shape "
                                   f"{p.shape}) is not p(h|v) {np.round(rh.reshape(-1)[:6], 6).tolist()}"
-                                  + (f" nor p(a|v) {np.round(ra.reshape(-1)[:6], 6).tolist()}" if mixed else "")
+                                  + (f" nor p(a|v) {np.round(ra.reshape(-1)[:6], 6).tolist()} (nor both side by side)" if mixed else "")
                                   + " of the current visible state", tags=tags, witness=wit)
                     return None
-                got[hit] = r.numpy()
             rv = ref_visible(got["h"], got.get("a"))
             if pos >= len(bern):
                 ctx.violation("chain-too-few-draws", f"{what}: step {step}: no visible draw recorded", tags=tags)
@@ -243,6 +263,7 @@ def phase(case, ctx, rng, st, am, label, held, last):
         return v
 
     ks = [0, 1, 2, 3, 5]
+    tap_blind = [False]
     for k in ks:
         for overwrite in (False, True):
             B = N if N <= 8 else 8
@@ -273,6 +294,7 @@ def phase(case, ctx, rng, st, am, label, held, last):
                 ctx.violation("not-binary", f"{entry} returned values outside {{0,1}}: {np.unique(rn)[:5].tolist()}", tags=tags)
             if k > 0 and not mon.bern:
                 ctx.count("tap_saw_no_draws")  # sampler no longer draws through aten::bernoulli: monitor 2 cannot observe
+                tap_blind[0] = True
                 final = None
             else:
                 final = automaton(mon.bern, rows, k, f"{entry}(k={k}, overwrite={overwrite})")
@@ -350,7 +372,7 @@ def phase(case, ctx, rng, st, am, label, held, last):
             ctx.count("random_start_not_observable")
 
     # ------------------------------------------------------------ monitor 3
-    if last and stat_case(case):
+    if last and (stat_case(case) or tap_blind[0]):
         M = 20000 if ctx.tier == "quick" else 200000
         ncases = max(1, n_stat_cases(ctx.tier)) * 3
         import qucumber
